@@ -3,8 +3,9 @@
 
    The model (Model/Update.v) is the code after the fix: commits ff5cb171 (non-target entries kept, matched
    target removed from the items still to add), d6f70cbe (a target matches the entry it would be stored as)
-   82c7cf0b (stale further copies of a re-created name dropped) and a048f63a (the walked paths are
-   de-duplicated by entry name: `update_targets kd walk` = the first walked path of every name).  An archive's logical content is the
+   82c7cf0b (stale further copies of a re-created name dropped), a048f63a (update: the walked paths are
+   de-duplicated by entry name) and 4cfc8ff5 (collect_items itself keeps the first walked path of every entry name,
+   for create, append, stdio -c and update alike: `update_targets kd walk` = the items).  An archive's logical content is the
    ordered list of its entries (solid blocks and part boundaries flattened); the disk is seen through the
    nodes the walker yields.  `wanted kd` is collect_items' filter (keep_dir || is_file), `fresh kt n` the entry
    create_entry builds for node n.  The re-created entries are written after the kept ones (the code sends
@@ -19,12 +20,97 @@ Proof. exact append_spec. Qed.
 Check C11_append_spec : forall a new, append a new = a ++ new.
 Print Assumptions C11_append_spec.
 
+(* the command: the previous entries unchanged, followed by the new ones — one per entry name among the walked paths,
+   built from the first walked path of that name, in walk order (C11_items_spec; overlapping file arguments
+   `-r t t/a`, `./t/a t/a` no longer archive a path twice: 4cfc8ff5) *)
 Theorem C11_append_cmd_spec : forall kd kt a walk a',
-  append_cmd kd kt a walk = Ok a' -> a' = a ++ map (fresh kt) (filter (wanted kd) walk).
+  append_cmd kd kt a walk = Ok a' -> a' = a ++ map (fresh kt) (update_targets kd walk).
 Proof. exact append_cmd_spec. Qed.
 Check C11_append_cmd_spec : forall kd kt a walk a',
-  append_cmd kd kt a walk = Ok a' -> a' = a ++ map (fresh kt) (filter (wanted kd) walk).
+  append_cmd kd kt a walk = Ok a' -> a' = a ++ map (fresh kt) (update_targets kd walk).
 Print Assumptions C11_append_cmd_spec.
+
+Theorem C11_create_cmd_spec : forall kd kt walk a',
+  create_cmd kd kt walk = Ok a' -> a' = map (fresh kt) (update_targets kd walk).
+Proof. exact create_cmd_spec. Qed.
+Check C11_create_cmd_spec : forall kd kt walk a',
+  create_cmd kd kt walk = Ok a' -> a' = map (fresh kt) (update_targets kd walk).
+Print Assumptions C11_create_cmd_spec.
+
+(* the items of create / append / update, in full: no two have the same entry name; their names are those of the
+   walked paths collect_items lets pass; a path is an item iff it is the first walked path of its name; the list is
+   the walk filtered when no name repeats; and, walking left to right, a path is an item iff it passes the filter and
+   no earlier path that passes has its name (the two equations determine the list) *)
+Theorem C11_items_spec : forall kd walk,
+  NoDup (map node_name (update_targets kd walk)) /\
+  (forall q, In q (map node_name (update_targets kd walk)) <-> In q (map node_name (filter (wanted kd) walk))) /\
+  (forall n, In n (update_targets kd walk) <-> find (named_p (node_name n)) (filter (wanted kd) walk) = Some n) /\
+  (NoDup (map node_name (filter (wanted kd) walk)) -> update_targets kd walk = filter (wanted kd) walk).
+Proof. exact update_targets_spec. Qed.
+Check C11_items_spec : forall kd walk,
+  NoDup (map node_name (update_targets kd walk)) /\
+  (forall q, In q (map node_name (update_targets kd walk)) <-> In q (map node_name (filter (wanted kd) walk))) /\
+  (forall n, In n (update_targets kd walk) <-> find (named_p (node_name n)) (filter (wanted kd) walk) = Some n) /\
+  (NoDup (map node_name (filter (wanted kd) walk)) -> update_targets kd walk = filter (wanted kd) walk).
+Print Assumptions C11_items_spec.
+
+Theorem C11_items_nil : forall kd, update_targets kd [] = [].
+Proof. exact update_targets_nil. Qed.
+Check C11_items_nil : forall kd, update_targets kd [] = [].
+Print Assumptions C11_items_nil.
+Theorem C11_items_snoc : forall kd walk n,
+  update_targets kd (walk ++ [n])
+  = update_targets kd walk ++ (if wanted kd n && negb (mem (node_name n) (map node_name (filter (wanted kd) walk))) then [n] else []).
+Proof. exact update_targets_snoc. Qed.
+Check C11_items_snoc : forall kd walk n,
+  update_targets kd (walk ++ [n])
+  = update_targets kd walk ++ (if wanted kd n && negb (mem (node_name n) (map node_name (filter (wanted kd) walk))) then [n] else []).
+Print Assumptions C11_items_snoc.
+
+(* update.rs still applies the rule to what collect_items returns: the second pass is the identity *)
+Theorem C11_dedup_idempotent : forall l, dedup_names (dedup_names l) = dedup_names l.
+Proof. exact dedup_names_idem. Qed.
+Check C11_dedup_idempotent : forall l, dedup_names (dedup_names l) = dedup_names l.
+Print Assumptions C11_dedup_idempotent.
+
+(* create never holds a name twice, whatever the walker yields (no premise); every walked path that passes is held
+   exactly once, as the entry of the first walked path of its name; the same for what append adds *)
+Theorem C11_create_nodup : forall kd kt walk a', create_cmd kd kt walk = Ok a' -> NoDup (names a').
+Proof. exact create_nodup. Qed.
+Check C11_create_nodup : forall kd kt walk a', create_cmd kd kt walk = Ok a' -> NoDup (names a').
+Print Assumptions C11_create_nodup.
+
+Theorem C11_create_exactly_once : forall kd kt walk a' n,
+  create_cmd kd kt walk = Ok a' ->
+  In n (filter (wanted kd) walk) ->
+  exists n', find (fun m => bytes_eqb (node_name m) (node_name n)) (filter (wanted kd) walk) = Some n' /\
+    node_name n' = node_name n /\
+    filter (fun e => bytes_eqb (e_path e) (node_name n)) a' = [fresh kt n'].
+Proof. exact create_exactly_once. Qed.
+Check C11_create_exactly_once : forall kd kt walk a' n,
+  create_cmd kd kt walk = Ok a' ->
+  In n (filter (wanted kd) walk) ->
+  exists n', find (fun m => bytes_eqb (node_name m) (node_name n)) (filter (wanted kd) walk) = Some n' /\
+    node_name n' = node_name n /\
+    filter (fun e => bytes_eqb (e_path e) (node_name n)) a' = [fresh kt n'].
+Print Assumptions C11_create_exactly_once.
+
+Theorem C11_append_new_exactly_once : forall kd kt a walk a' n,
+  append_cmd kd kt a walk = Ok a' ->
+  In n (filter (wanted kd) walk) ->
+  exists n' new, a' = a ++ new /\
+    find (fun m => bytes_eqb (node_name m) (node_name n)) (filter (wanted kd) walk) = Some n' /\
+    node_name n' = node_name n /\
+    filter (fun e => bytes_eqb (e_path e) (node_name n)) new = [fresh kt n'].
+Proof. exact append_new_exactly_once. Qed.
+Check C11_append_new_exactly_once : forall kd kt a walk a' n,
+  append_cmd kd kt a walk = Ok a' ->
+  In n (filter (wanted kd) walk) ->
+  exists n' new, a' = a ++ new /\
+    find (fun m => bytes_eqb (node_name m) (node_name n)) (filter (wanted kd) walk) = Some n' /\
+    node_name n' = node_name n /\
+    filter (fun e => bytes_eqb (e_path e) (node_name n)) new = [fresh kt n'].
+Print Assumptions C11_append_new_exactly_once.
 
 (* update, the ordered-list equation (archives without duplicate names):
    the entries that stay ++ the re-created ones in archive order ++ the targets not yet archived *)
@@ -124,17 +210,47 @@ Check C11_update_nodup : forall kd kt excl cond a walk a',
 Print Assumptions C11_update_nodup.
 
 (* any interleaving of create, append (of names not yet archived), update, delete and re-splitting, failing
-   steps included (they leave the archive as it was): no name is ever held twice.  `hist_ok` asks nothing of an
-   update step any more (C11_hist_ok_update); create and append still archive a path named twice twice *)
+   steps included (they leave the archive as it was): no name is ever held twice.  `hist_ok` asks nothing of a create
+   step (4cfc8ff5), an update step (a048f63a), a delete or a re-split (C11_hist_ok_create, C11_hist_ok_update); of an
+   append step it asks that no walked path has a name the archive holds — nothing about the walked paths among
+   themselves any more (C11_hist_ok_append).  That clause cannot go: append.rs seeks to the end and writes, it never
+   reads the names (C11_append_existing_name_twice) *)
 Theorem C11_history_invariant : forall ops a, NoDup (names a) -> hist_ok a ops -> NoDup (names (final a ops)).
 Proof. exact history_invariant. Qed.
 Check C11_history_invariant : forall ops a, NoDup (names a) -> hist_ok a ops -> NoDup (names (final a ops)).
 Print Assumptions C11_history_invariant.
 
+(* a history without append: no premise on any step *)
+Theorem C11_history_invariant_no_append : forall ops a, NoDup (names a) -> no_append ops -> NoDup (names (final a ops)).
+Proof. exact history_invariant_no_append. Qed.
+Check C11_history_invariant_no_append : forall ops a, NoDup (names a) -> no_append ops -> NoDup (names (final a ops)).
+Print Assumptions C11_history_invariant_no_append.
+
 Theorem C11_hist_ok_update : forall a kd kt excl cond walk, op_ok a (OUpdate kd kt excl cond walk) <-> True.
-Proof. exact (fun _ _ _ _ _ _ => conj (fun _ => I) (fun _ => I)). Qed.
+Proof. exact op_ok_update. Qed.
 Check C11_hist_ok_update : forall a kd kt excl cond walk, op_ok a (OUpdate kd kt excl cond walk) <-> True.
 Print Assumptions C11_hist_ok_update.
+
+Theorem C11_hist_ok_create : forall a kd kt walk, op_ok a (OCreate kd kt walk) <-> True.
+Proof. exact op_ok_create. Qed.
+Check C11_hist_ok_create : forall a kd kt walk, op_ok a (OCreate kd kt walk) <-> True.
+Print Assumptions C11_hist_ok_create.
+
+Theorem C11_hist_ok_append : forall a kd kt walk,
+  op_ok a (OAppend kd kt walk) <-> (forall n, In n (filter (wanted kd) walk) -> ~ In (node_name n) (names a)).
+Proof. exact op_ok_append. Qed.
+Check C11_hist_ok_append : forall a kd kt walk,
+  op_ok a (OAppend kd kt walk) <-> (forall n, In n (filter (wanted kd) walk) -> ~ In (node_name n) (names a)).
+Print Assumptions C11_hist_ok_append.
+
+Theorem C11_append_existing_name_twice :
+  exists a walk a', NoDup (names a) /\ append_cmd false false a walk = Ok a' /\
+    names a' = [lit "t/a"; lit "t/a"] /\ ~ NoDup (names a').
+Proof. exact append_existing_name_twice. Qed.
+Check C11_append_existing_name_twice :
+  exists a walk a', NoDup (names a) /\ append_cmd false false a walk = Ok a' /\
+    names a' = [lit "t/a"; lit "t/a"] /\ ~ NoDup (names a').
+Print Assumptions C11_append_existing_name_twice.
 
 Theorem C11_delete_spec : forall matched a,
   delete matched a = filter (fun e => negb (mem (e_path e) matched)) a.
@@ -167,6 +283,37 @@ Check C11_update_overlap_unrepaired_refuted :
     names a' = [lit "t/a"; lit "t/b"; lit "t/b"] /\ ~ NoDup (names a').
 Print Assumptions C11_update_overlap_unrepaired_refuted.
 
+(* the same defect in create / append, on the commands as they were before 4cfc8ff5 (collect_orig): the walker yields
+   t/a twice (t/a ./t/a) -> create archives t/a twice; archive [t/a], walk t/b ./t/b -> append archives t/b twice
+   although no walked path has a name the archive holds *)
+Theorem C11_create_overlap_unrepaired_refuted :
+  exists walk a', create_cmd_orig false false walk = Ok a' /\
+    names a' = [lit "t/a"; lit "t/a"] /\ ~ NoDup (names a').
+Proof. exact create_overlap_unrepaired. Qed.
+Check C11_create_overlap_unrepaired_refuted :
+  exists walk a', create_cmd_orig false false walk = Ok a' /\
+    names a' = [lit "t/a"; lit "t/a"] /\ ~ NoDup (names a').
+Print Assumptions C11_create_overlap_unrepaired_refuted.
+
+Theorem C11_append_overlap_unrepaired_refuted :
+  exists a walk a', NoDup (names a) /\ (forall n, In n (filter (wanted false) walk) -> ~ In (node_name n) (names a)) /\
+    append_cmd_orig false false a walk = Ok a' /\
+    names a' = [lit "t/a"; lit "t/b"; lit "t/b"] /\ ~ NoDup (names a').
+Proof. exact append_overlap_unrepaired. Qed.
+Check C11_append_overlap_unrepaired_refuted :
+  exists a walk a', NoDup (names a) /\ (forall n, In n (filter (wanted false) walk) -> ~ In (node_name n) (names a)) /\
+    append_cmd_orig false false a walk = Ok a' /\
+    names a' = [lit "t/a"; lit "t/b"; lit "t/b"] /\ ~ NoDup (names a').
+Print Assumptions C11_append_overlap_unrepaired_refuted.
+
+Example C11_create_overlap_repaired :
+  create_cmd false false ovc_walk = Ok [mkE (lit "t/a") 0 (lit "one") None].
+Proof. exact create_overlap_repaired_witness. Qed.
+Example C11_append_overlap_repaired :
+  append_cmd false false ov_a ov_walk
+  = Ok [mkE (lit "t/a") 0 (lit "one") None; mkE (lit "t/b") 0 (lit "two") None].
+Proof. exact append_overlap_repaired_witness. Qed.
+
 Example C11_update_overlap_repaired :
   update_cmd false false [] 0 ov_a ov_walk
   = Ok [mkE (lit "t/a") 0 (lit "one") None; mkE (lit "t/b") 0 (lit "two") None].
@@ -183,5 +330,5 @@ Proof.
   - repeat constructor; cbn; intuition discriminate.
   - vm_compute. left. reflexivity.
   - vm_compute. reflexivity.
-  - cbn. repeat split; repeat constructor; cbn; intuition.
+  - cbn. tauto.
 Qed.
